@@ -27,9 +27,17 @@ type Vote struct {
 	Absent bool
 }
 
+// Evid: double-sign evidence delivered with a block: consensus key id, infraction height, the validator's power then
+type Evid struct {
+	Key    int
+	Height int64
+	Power  int64
+}
+
 type Block struct {
 	DtNs    int64
 	Votes   []Vote
+	Evid    []Evid
 	Txs     []Tx
 	Restart bool // implementation only: restart the node before this block
 	Absent  []int // script mode only: keys to mark absent; votes are then filled in from the tracked sets
@@ -74,13 +82,20 @@ func WriteBlock(w io.Writer, b Block) {
 	if b.Restart {
 		fmt.Fprintf(w, "RESTART\n")
 	}
-	fmt.Fprintf(w, "BLOCK %d %d %d\n", b.DtNs, len(b.Votes), len(b.Txs))
+	if len(b.Evid) > 0 {
+		fmt.Fprintf(w, "BLOCK %d %d %d %d\n", b.DtNs, len(b.Votes), len(b.Txs), len(b.Evid))
+	} else {
+		fmt.Fprintf(w, "BLOCK %d %d %d\n", b.DtNs, len(b.Votes), len(b.Txs))
+	}
 	for _, v := range b.Votes {
 		a := 0
 		if v.Absent {
 			a = 1
 		}
 		fmt.Fprintf(w, "VOTE %d %d %d\n", v.Key, v.Power, a)
+	}
+	for _, e := range b.Evid {
+		fmt.Fprintf(w, "EVID %d %d %d\n", e.Key, e.Height, e.Power)
 	}
 	for _, t := range b.Txs {
 		fmt.Fprintf(w, "TX %d %d\n", t.Signer, len(t.Msgs))
@@ -201,6 +216,15 @@ func ReadHistories(rd io.Reader) ([]History, error) {
 					return nil, fmt.Errorf("line %d: expected VOTE", r.line)
 				}
 				b.Votes = append(b.Votes, Vote{Key: atoi(v[1]), Power: atoi64(v[2]), Absent: v[3] == "1"})
+			}
+			if len(f) > 4 {
+				for i := 0; i < atoi(f[4]); i++ {
+					e, err := r.next()
+					if err != nil || e[0] != "EVID" {
+						return nil, fmt.Errorf("line %d: expected EVID", r.line)
+					}
+					b.Evid = append(b.Evid, Evid{Key: atoi(e[1]), Height: atoi64(e[2]), Power: atoi64(e[3])})
+				}
 			}
 			for i := 0; i < nt; i++ {
 				t, err := r.next()
